@@ -111,6 +111,55 @@ def scenario(rng, k, nops, sizes, lat_choices, mode):
     return {'k': k, 'dmax': max(sizes), 'cap': L // 2, 'events': events, 'mode': mode, 'sizes': sizes, 'lats': lat_choices}
 
 
+def small_streams(rng, k, m, d, lat_choices):
+    """k threads on one limiter, each reading m SHORT streams one after the other with read(d): every stream is shorter than the read size
+    (a chunk shorter than the transfer piece), so every read comes back short - thousands of chunks behave like this at a high limit"""
+    from replicat import utils
+    vt = vtime.VTime()
+    real_time = utils.time
+
+    class T:
+        perf_counter = staticmethod(vt.perf_counter)
+        sleep = staticmethod(vt.sleep)
+    lim = utils.RateLimitedIO(L)
+    lim._read_lock = vt.lock()
+    lim._write_lock = vt.lock()
+    utils.time = T
+    events, intact = [], [True]
+    elock = threading.Lock()
+    try:
+        def worker(i):
+            vt.enter()
+            try:
+                r = random.Random(rng.random())
+                for _ in range(m):
+                    data = r.randbytes(r.randrange(max(1, d // 3), d))
+                    w = lim.wrap(SlowFile(data, vt, lat_iter(r, lat_choices)))
+                    got = []
+                    while True:
+                        b = w.read(d)
+                        if not b:
+                            break
+                        got.append(b)
+                        with elock:
+                            events.append({'a': 'deliver', 's': i, 'n': len(b), 't': int(round(vt.now * L))})
+                    if b''.join(got) != data:
+                        intact[0] = False
+            finally:
+                vt.leave()
+        ts = [threading.Thread(target=worker, args=(i + 1,)) for i in range(k)]
+        for t in ts:
+            t.start()
+        for t in ts:
+            t.join(60)
+        hung = any(t.is_alive() for t in ts)
+    finally:
+        utils.time = real_time
+    events.sort(key=lambda e: e['t'])
+    events.append({'a': 'done', 'intact': intact[0] and not hung, 'seekok': True})
+    return {'k': k, 'dmax': d, 'cap': L // 2, 'events': events, 'mode': 'read', 'sizes': [d], 'lats': lat_choices}
+
+
 def command_run(rng, kind, conc):
     """a whole snapshot / restore with rate_limit under the virtual clock: deliveries observed at the backend"""
     from replicat import utils
@@ -237,6 +286,10 @@ def main(run):
         mode = 'read' if i % 3 else 'write'
         traces.append(scenario(rng, k, 25 if quick else 80, sizes, lats, mode))
         run.case(('limiter', i, k, tuple(sizes), tuple(lats), mode))
+    # many short streams in a row (every read comes back short)
+    for k, m, d in ((1, 60, quarter), (2, 40, 65536)) if quick else ((1, 200, quarter), (2, 120, 65536), (1, 300, 4096), (3, 80, quarter // 2)):
+        traces.append(small_streams(rng, k, m, d, [0]))
+        run.case(('limiter', 'short-streams', k, m, d))
     # recorded finding n, exercised on every run: several streams whose underlying I/O is as slow as their share
     traces.append(scenario(rng, 4, 40, [quarter], [0.25], 'read'))
     run.case(('limiter', 'finding-n'))
